@@ -153,7 +153,7 @@ def _reader_for(case, ctx):
     lay = case["layout"]
     d = ctx.fresh_dir()
     paths, D, hl, dl = vs.write_layout(lay, d)
-    rd = FilReader(paths)
+    rd = vs.open_relative(paths, FilReader, d) if case.get("relpath") else FilReader(paths)
     require(rd.header.nsamples == D.shape[0], "open:nsamples", f"{rd.header.nsamples} != {D.shape[0]}")
     require(rd.header.nchans == D.shape[1], "open:nchans")
     return rd, D
@@ -169,7 +169,7 @@ def _crosses(lay, pl):
 
 def check_random(case, ctx):
     rd, D = _reader_for(case, ctx)
-    labels = [f"{case['layout']['nbits']}bit", f"files{len(case['layout']['split'])}"]
+    labels = [f"{case['layout']['nbits']}bit", f"files{len(case['layout']['split'])}"] + (["relative_names_then_chdir"] if case.get("relpath") else [])
     nontrivial = False
     alloc = None
     if case.get("np_alloc"):
@@ -201,7 +201,9 @@ def strat_random(tier):
         for pl in plans:
             if draw(st.integers(0, 4)) == 0:
                 pl["np_ints"] = True
-        return {"layout": lay, "plans": plans, "np_alloc": draw(st.sampled_from([False, False, False, True]))}
+        return {"layout": lay, "plans": plans, "np_alloc": draw(st.sampled_from([False, False, False, True])),
+                # opened by relative names, the process then moves to a directory holding same-named other files
+                "relpath": draw(st.sampled_from([False, False, False, True]))}
 
     return s()
 
